@@ -11,7 +11,7 @@
    the theorems quantify over them. *)
 From Coq Require Import List NArith String Bool.
 Import ListNotations.
-From VF Require Import gen.Gen_C09 C09.Model C09.Spec C09.Proofs.
+From VF Require Import gen.Gen_C09 C09.Model C09.Spec C09.Proofs C09.Subs.
 Local Open Scope N_scope.
 
 (* ---------- obligations on the tables regenerated from /repo on every run (finite, by computation) ---------- *)
@@ -109,6 +109,15 @@ Theorem wire_threads_independent : forall p s outbound m v3 flag wi wth wpth fre
               forall t', t' <> t -> cur p (fst (step p s (Wire outbound m v3 flag wi wth wpth fresh f tape))) t' = cur p s t'.
 Proof. exact wire_accepted_gen. Qed.
 Print Assumptions wire_threads_independent.
+
+(* SUBSCRIBERS (full): state messages go to a snapshot of the registered channels; whatever the subscribers do from
+   inside their handling of a message (unregister other channels, register new ones), a channel that is registered
+   once when a sequence of state messages starts and is never unregistered receives exactly that sequence: same order,
+   no gaps, no duplicates -- hence the path of the thread that the machine announces *)
+Theorem subscriber_sees_all : forall sc j, never_unreg sc j -> forall evs s, In j (reg s) -> NoDup (reg s) ->
+  stream_of j (bcast_all sc s evs) = stream_of j s ++ evs.
+Proof. exact Subs_sees_all_gen. Qed.
+Print Assumptions subscriber_sees_all.
 
 (* ---------- THE PROPERTY: full statement, refuted as the code is; partial under the busy discipline ---------- *)
 
@@ -219,6 +228,15 @@ Example wire_nonvacuous :
   wire_thread pp_proto 2 true false (Some 7) (Some 2) (Some 1) 901 = Some 2 /\
   wire_thread ic_proto 2 true false None (Some 1) None 902 = None /\
   wire_thread ic_proto 2 true false (Some 7) (Some 2) (Some 1) 903 = Some 1.
+Proof. vm_compute. repeat split. Qed.
+
+(* four channels; channel 1 unregisters channel 2 and registers channel 4 while handling its first PreState message:
+   channels 0, 1 and 3 see every message, channel 2 still gets the message being delivered, channel 4 the later ones *)
+Example subscribers_nonvacuous :
+  let sc := [(1%nat, 1%nat, RUnreg 2); (1%nat, 1%nat, RReg 4)] in
+  let evs := [(true, 6); (false, 6); (true, 7); (false, 7)] in
+  let s := bcast_all sc {| reg := seq 0 4; cnt := []; slog := [] |} evs in
+  stream_of 0 s = evs /\ stream_of 3 s = evs /\ stream_of 2 s = [(true, 6)] /\ stream_of 4 s = [(false, 6); (true, 7); (false, 7)].
 Proof. vm_compute. repeat split. Qed.
 
 (* guarded histories WITH faults: present-proof prover whose presentation fails to send (abandoned, done never
